@@ -558,4 +558,59 @@ theorem lookup_toW2Map (cid : Nat) : ∀ (ps : List (Int × (Rat × Rat × Rat))
       rw [b1, b2]
       exact ih
 
+
+/-! ### bfrange increment: ISO's "last byte" wording vs the carry form -/
+
+theorem nunpack_snoc : ∀ (t : Bytes) (b : UInt8), nunpack (t ++ [b]) = nunpack t * 256 + b.toNat
+  | [], b => by simp [nunpack]
+  | a :: t, b => by
+    simp only [List.cons_append, nunpack, List.length_append, List.length_cons, List.length_nil, Nat.zero_add,
+      nunpack_snoc t b, Nat.pow_succ, Nat.add_mul, Nat.mul_assoc, Nat.add_assoc]
+
+theorem natToBE_snoc (n x b k : Nat) (h : b + k < 256) :
+    natToBE (n + 1) (x * 256 + b + k) = natToBE n x ++ [UInt8.ofNat (b + k)] := by
+  have h1 : (x * 256 + b + k) / 256 = x := by omega
+  have h2 : (x * 256 + b + k) % 256 = b + k := by omega
+  simp [natToBE, h1, h2]
+
+theorem natToBE_nunpack : ∀ (n : Nat) (t : Bytes), t.length = n → natToBE n (nunpack t) = t
+  | 0, t, h => by
+    have : t = [] := List.length_eq_zero_iff.mp h
+    subst this; simp [natToBE]
+  | n + 1, t, h => by
+    have hne : t ≠ [] := by intro h0; subst h0; simp at h
+    obtain ⟨b, hb⟩ : ∃ b, t.getLast? = some b := by
+      cases hq : t.getLast? with
+      | none => exact absurd (List.getLast?_eq_none_iff.mp hq) hne
+      | some b => exact ⟨b, rfl⟩
+    obtain ⟨init, rfl⟩ := List.getLast?_eq_some_iff.mp hb
+    have hl : init.length = n := by simpa using h
+    rw [nunpack_snoc]
+    have := natToBE_snoc n (nunpack init) b.toNat 0 (by have := b.toNat_lt; omega)
+    simp only [Nat.add_zero] at this
+    rw [this, natToBE_nunpack n init hl]
+    simp
+
+theorem incBE_eq_incLast (d x : Bytes) (k : Nat) (h : incLast d k = some x) : incBE d k = x := by
+  unfold incLast at h
+  cases hq : d.getLast? with
+  | none => simp [hq] at h
+  | some b =>
+    simp only [hq] at h
+    by_cases hb : b.toNat + k < 256
+    · simp only [hb, if_true, Option.some.injEq] at h
+      subst h
+      obtain ⟨init, rfl⟩ := List.getLast?_eq_some_iff.mp hq
+      unfold incBE takeLast dropLast4
+      simp only [show (4 : Nat) ≠ 0 by decide, if_false, List.length_append, List.length_cons, List.length_nil,
+        Nat.zero_add]
+      have e1 : init.length + 1 - 4 = init.length - 3 := by omega
+      rw [e1, List.drop_append_of_le_length (by omega), List.take_append_of_le_length (by omega)]
+      rw [nunpack_snoc, List.length_append]
+      simp only [List.length_cons, List.length_nil, Nat.zero_add]
+      rw [natToBE_snoc _ _ _ _ hb, natToBE_nunpack _ _ rfl]
+      rw [← List.append_assoc, List.take_append_drop]
+      simp [List.dropLast_concat]
+    · simp [hb] at h
+
 end PdfVerif.CIDFontLemmas
